@@ -381,3 +381,25 @@ def _ens_run(h, method):
 
 contract('C09/ensemble._Step/member-hand-off', ['C09', 'C07'], ENS + '._Step', native=False)(lambda h: _ens_run(h, '_Step'))
 contract('C09/ensemble._Solve/member-hand-off', ['C09', 'C07'], ENS + '._Solve', native=False)(lambda h: _ens_run(h, '_Solve'))
+
+
+@contract('C09/BuckshotSolver._InitialPoints', ['C09', 'C02'], 'mystic/ensemble.py::BuckshotSolver._InitialPoints', native=False)
+def buckshot_points(h):
+    """exactly npts starting points, each of the problem's dimension and inside the strict ranges [lower, upper]
+    (uniform sampling: whatever numbers in [0, 1) the generator yields)"""
+    if not h.is_sym():
+        h.unsupported('symbolic only (the random generator is abstract)')
+    from pyvc.values import ModRef
+    D = h.choice('dimension', [1, 2, 3])
+    npts = h.choice('npts', [1, 2, 4])
+    lo, up = h.vec('lower', D), h.vec('upper', D)
+    h.assume(' and '.join('lo[%d] <= up[%d]' % (i, i) for i in range(D)), lo=lo, up=up)
+    s = h.obj('mystic/ensemble.py::BuckshotSolver', nDim=D, _npts=npts, _dist=None,
+              _strictMin=h.clist(list(h.st.heap[lo])), _strictMax=h.clist(list(h.st.heap[up])),
+              _defaultMin=h.clist([-1e3] * D), _defaultMax=h.clist([1e3] * D))
+    h.set_summaries({('mystic/tools.py', 'random_state'): lambda I, c, a, k: ModRef('numpy.random')})
+    pts = h.call(h.getattr(s, '_InitialPoints'))
+    h.check('exactly-as-many-members-as-requested', 'len(pts) == n', pts=pts, n=npts)
+    h.check('each-member-starts-inside-the-strict-ranges',
+            ' and '.join('len(pts[%d]) == %d and lo[%d] <= pts[%d][%d] and pts[%d][%d] <= up[%d]' % (k, D, d, k, d, k, d, d)
+                         for k in range(npts) for d in range(D)), pts=pts, lo=lo, up=up)
